@@ -1,53 +1,367 @@
+// orbcheck is the single entry point of the verification harness.
+//
+//	orbcheck check <ID> [-tier quick|thorough] [-seed N]   orchestrate shard workers, write evidence
+//	orbcheck shard <ID> -tier T -seed N -shard i -of n -out FILE   one worker
+//	orbcheck replay <file>                                 show a stored witness
 package main
 
 import (
+	"encoding/json"
+	"flag"
 	"fmt"
+	"math/rand"
 	"os"
+	"os/exec"
+	"path/filepath"
+	"runtime"
+	"sort"
+	"strconv"
+	"strings"
+	"sync"
 	"time"
 
-	sdkmath "cosmossdk.io/math"
-	sdk "github.com/cosmos/cosmos-sdk/types"
-
-	"orbverif/world"
+	"orbverif/checks"
+	"orbverif/fw"
 )
 
+const verifDir = "/verif"
+
 func main() {
-	t0 := time.Now()
-	w, err := world.New(world.Config{})
-	if err != nil {
-		fmt.Println("ERR", err)
-		os.Exit(2)
+	if len(os.Args) < 2 {
+		usage()
 	}
-	fmt.Println("world built in", time.Since(t0), "height", w.Height, "channels", w.Channels, "hyp", w.Hyp.TokenUSDC.String())
-	if err := w.EnsureEscrow(w.K("alice"), world.USDC, sdkmath.NewInt(1_000_000_000)); err != nil {
-		fmt.Println("ERR", err)
-		os.Exit(2)
+	switch os.Args[1] {
+	case "check":
+		os.Exit(cmdCheck(os.Args[2:]))
+	case "shard":
+		os.Exit(cmdShard(os.Args[2:]))
+	case "replay":
+		os.Exit(cmdReplay(os.Args[2:]))
+	case "list":
+		var ids []string
+		for id := range checks.Registry {
+			ids = append(ids, id)
+		}
+		sort.Strings(ids)
+		fmt.Println(strings.Join(ids, " "))
+	default:
+		usage()
 	}
-	p := w.Channels[0]
-	memo := fmt.Sprintf(`{"orbiter":{"forwarding":{"protocol_id":"PROTOCOL_INTERNAL","attributes":{"@type":"/noble.orbiter.controller.forwarding.v1.InternalAttributes","recipient":"%s"}}}}`, w.K("rcpt1").String())
-	ctx := w.Branch()
-	before := w.Snapshot(ctx)
-	pkt := w.ForgePacket(ctx, p, world.ICS20("transfer/"+p.B+"/uusdc", "1000", w.K("bob").String(), world.OrbiterAddr().String(), memo))
-	r := w.RecvH(ctx, pkt)
-	fmt.Println(r); dbg(r)
-	fmt.Println(world.Diff(before, w.Snapshot(ctx)))
-	_ = sdk.Coin{}
 }
 
-func init() {
-	dbg = func(r world.RecvResult) {
-		for _, e := range r.Events {
-			fmt.Print(e.Type, "{")
-			for _, a := range e.Attributes {
-				v := a.Value
-				if len(v) > 60 {
-					v = v[:60]
-				}
-				fmt.Print(a.Key, "=", v, ",")
-			}
-			fmt.Println("}")
+func usage() {
+	fmt.Fprintln(os.Stderr, "usage: orbcheck check|shard|replay|list ...")
+	os.Exit(2)
+}
+
+func envInt(name string, def int64) int64 {
+	if v := os.Getenv(name); v != "" {
+		if n, err := strconv.ParseInt(v, 10, 64); err == nil {
+			return n
 		}
 	}
+	return def
 }
 
-var dbg func(world.RecvResult)
+func cmdShard(args []string) int {
+	fs := flag.NewFlagSet("shard", flag.ExitOnError)
+	tier := fs.String("tier", "quick", "")
+	seed := fs.Int64("seed", 1, "")
+	shard := fs.Int("shard", 0, "")
+	of := fs.Int("of", 1, "")
+	out := fs.String("out", "", "")
+	journal := fs.String("journal", "", "")
+	id := args[0]
+	fs.Parse(args[1:])
+	def, ok := checks.Registry[id]
+	if !ok {
+		fmt.Fprintln(os.Stderr, "unknown check", id)
+		return 2
+	}
+	res := fw.NewResult(id)
+	env := &fw.Env{
+		Property: id, Tier: *tier, Seed: *seed, Shard: *shard, Shards: *of,
+		R:   rand.New(rand.NewSource(*seed*1000003 + int64(*shard)*7919 + 17)),
+		Res: res,
+	}
+	if *journal != "" {
+		if f, err := os.Create(*journal); err == nil {
+			env.Journal = f
+			defer f.Close()
+		}
+	}
+	def.Run(env)
+	bz, err := json.Marshal(res)
+	if err != nil {
+		fmt.Fprintln(os.Stderr, "marshal result:", err)
+		return 2
+	}
+	if err := os.WriteFile(*out, bz, 0o644); err != nil {
+		fmt.Fprintln(os.Stderr, "write result:", err)
+		return 2
+	}
+	return 0
+}
+
+func cmdCheck(args []string) int {
+	fs := flag.NewFlagSet("check", flag.ExitOnError)
+	tierF := fs.String("tier", "", "")
+	seedF := fs.Int64("seed", -1, "")
+	id := args[0]
+	fs.Parse(args[1:])
+	def, ok := checks.Registry[id]
+	if !ok {
+		fmt.Fprintln(os.Stderr, "unknown check", id)
+		return 2
+	}
+	tier := *tierF
+	if tier == "" {
+		tier = os.Getenv("VERIF_TIER")
+	}
+	if tier != "thorough" {
+		tier = "quick"
+	}
+	seed := *seedF
+	if seed < 0 {
+		seed = envInt("VERIF_SEED", 1)
+	}
+	t0 := time.Now()
+	n := runtime.NumCPU()
+	if n > 16 {
+		n = 16
+	}
+	if def.MaxShards > 0 && n > def.MaxShards {
+		n = def.MaxShards
+	}
+	if v := envInt("VERIF_SHARDS", 0); v > 0 {
+		n = int(v)
+	}
+	work := filepath.Join(verifDir, ".work", fmt.Sprintf("%s-%s-%d-%d", id, tier, seed, os.Getpid()))
+	os.MkdirAll(work, 0o755)
+	self, _ := os.Executable()
+
+	watchdog := 20 * time.Minute
+	if tier == "thorough" {
+		watchdog = 3 * time.Hour
+	}
+	type shardOut struct {
+		res      *fw.Result
+		err      string
+		timedOut bool
+		journal  string
+	}
+	outs := make([]shardOut, n)
+	var wg sync.WaitGroup
+	for i := 0; i < n; i++ {
+		wg.Add(1)
+		go func(i int) {
+			defer wg.Done()
+			outFile := filepath.Join(work, fmt.Sprintf("shard_%d.json", i))
+			logFile := filepath.Join(work, fmt.Sprintf("shard_%d.log", i))
+			jFile := filepath.Join(work, fmt.Sprintf("shard_%d.journal", i))
+			lf, _ := os.Create(logFile)
+			defer lf.Close()
+			cmd := exec.Command(self, "shard", id, "-tier", tier, "-seed", fmt.Sprint(seed),
+				"-shard", fmt.Sprint(i), "-of", fmt.Sprint(n), "-out", outFile, "-journal", jFile)
+			cmd.Stdout, cmd.Stderr = lf, lf
+			if err := cmd.Start(); err != nil {
+				outs[i].err = err.Error()
+				return
+			}
+			done := make(chan error, 1)
+			go func() { done <- cmd.Wait() }()
+			select {
+			case err := <-done:
+				if err != nil {
+					outs[i].err = err.Error()
+				}
+			case <-time.After(watchdog):
+				cmd.Process.Kill()
+				<-done
+				outs[i].timedOut = true
+				return
+			}
+			bz, err := os.ReadFile(outFile)
+			if err != nil {
+				if outs[i].err == "" {
+					outs[i].err = "no result file"
+				}
+				jb, _ := os.ReadFile(jFile)
+				outs[i].journal = string(jb)
+				return
+			}
+			var r fw.Result
+			if err := json.Unmarshal(bz, &r); err != nil {
+				outs[i].err = "bad result file: " + err.Error()
+				return
+			}
+			outs[i].res = &r
+		}(i)
+	}
+	wg.Wait()
+
+	merged := fw.NewResult(id)
+	var dead []string
+	inconclusive := false
+	for i, o := range outs {
+		switch {
+		case o.timedOut:
+			inconclusive = true
+			merged.Inconc("shard %d hit the wall-clock watchdog", i)
+		case o.res == nil:
+			tail := tailFile(filepath.Join(work, fmt.Sprintf("shard_%d.log", i)), 40)
+			dead = append(dead, fmt.Sprintf("shard %d died (%s); last input: %s; log tail: %s", i, o.err, o.journal, tail))
+		default:
+			merged.Merge(o.res)
+		}
+	}
+	known, err := fw.LoadKnown(filepath.Join(verifDir, "known_findings.json"))
+	if err != nil {
+		fmt.Fprintln(os.Stderr, "known findings:", err)
+		return 2
+	}
+
+	exit := 0
+	var fresh []fw.Violation
+	knownHits := map[string]int{}
+	for _, v := range merged.Violations {
+		matched := false
+		for _, k := range known {
+			if k.Matches(v) {
+				knownHits[fmt.Sprintf("property=%s %s", k.Property, k.What)]++
+				matched = true
+				break
+			}
+		}
+		if !matched {
+			fresh = append(fresh, v)
+		}
+	}
+	// a dead worker is a C14 violation when C14 is being checked (the journal names the input),
+	// otherwise the run is inconclusive.
+	for _, d := range dead {
+		if id == "C14" {
+			fresh = append(fresh, fw.Violation{Property: "C14", Kind: "worker-died", Detail: d})
+		} else {
+			inconclusive = true
+			merged.Inconc("%s", d)
+		}
+	}
+	var hitKeys []string
+	for k := range knownHits {
+		hitKeys = append(hitKeys, k)
+	}
+	sort.Strings(hitKeys)
+	for _, k := range hitKeys {
+		fmt.Printf("KNOWN-FINDING: %s (seen %d time(s))\n", k, knownHits[k])
+	}
+	os.MkdirAll(filepath.Join(verifDir, "replays"), 0o755)
+	seen := map[string]bool{}
+	for i, v := range fresh {
+		if seen[v.Key()] {
+			continue
+		}
+		seen[v.Key()] = true
+		path := filepath.Join(verifDir, "replays", fmt.Sprintf("%s-%s-seed%d-%d.json", id, tier, seed, i))
+		bz, _ := json.MarshalIndent(map[string]any{"property": id, "tier": tier, "seed": seed, "violation": v}, "", " ")
+		os.WriteFile(path, bz, 0o644)
+		fmt.Printf("VIOLATION property=%s replay=%s\n", id, path)
+		fmt.Printf("  kind=%s %s\n", v.Key(), trunc(v.Detail, 600))
+		exit = 1
+	}
+	distinct := len(merged.Signatures)
+	if exit == 0 && (inconclusive || distinct < def.MinSigs || merged.Evaluations == 0) {
+		if distinct < def.MinSigs {
+			merged.Inconc("only %d distinct non-trivial signatures observed (minimum %d)", distinct, def.MinSigs)
+		}
+		fmt.Printf("INCONCLUSIVE property=%s %s\n", id, strings.Join(merged.Inconclusive, " | "))
+		exit = 2
+	}
+
+	// evidence
+	sigs := make([]string, 0, len(merged.Signatures))
+	for k := range merged.Signatures {
+		sigs = append(sigs, k)
+	}
+	sort.Strings(sigs)
+	sigSample := sigs
+	if len(sigSample) > 60 {
+		step := len(sigSample) / 60
+		var s2 []string
+		for i := 0; i < len(sigSample); i += step {
+			s2 = append(s2, sigSample[i])
+		}
+		sigSample = s2
+	}
+	samples := merged.Samples
+	if len(samples) == 0 {
+		samples = []any{"(no sample recorded)"}
+	}
+	cov := map[string]any{
+		"evaluations":         merged.Evaluations,
+		"distinct_nontrivial": distinct,
+		"rule":                def.Rule,
+		"samples":             samples,
+		"counters":            merged.Counters,
+		"signature_sample":    sigSample,
+		"cross_observations":  merged.Cross,
+		"inconclusive":        merged.Inconclusive,
+		"known_findings_hit":  knownHits,
+		"notes":               merged.Notes,
+		"shards":              n,
+	}
+	ev := map[string]any{
+		"property_id": id,
+		"tier":        tier,
+		"seed":        seed,
+		"level":       def.Level,
+		"coverage":    cov,
+		"assumptions": def.Assumptions,
+		"wall_s":      time.Since(t0).Seconds(),
+		"violations":  len(fresh),
+	}
+	os.MkdirAll(filepath.Join(verifDir, "evidence"), 0o755)
+	bz, _ := json.MarshalIndent(ev, "", " ")
+	if err := os.WriteFile(filepath.Join(verifDir, "evidence", id+".json"), bz, 0o644); err != nil {
+		fmt.Fprintln(os.Stderr, "write evidence:", err)
+		return 2
+	}
+	fmt.Printf("%s %s seed=%d: %d evaluations, %d distinct non-trivial signatures, %d violation(s), %d known finding(s), %.1fs\n",
+		id, tier, seed, merged.Evaluations, distinct, len(fresh), len(knownHits), time.Since(t0).Seconds())
+	if exit == 0 {
+		os.RemoveAll(work)
+	}
+	return exit
+}
+
+func trunc(s string, n int) string {
+	if len(s) > n {
+		return s[:n] + "…"
+	}
+	return s
+}
+
+func tailFile(path string, lines int) string {
+	bz, err := os.ReadFile(path)
+	if err != nil {
+		return ""
+	}
+	ls := strings.Split(strings.TrimSpace(string(bz)), "\n")
+	if len(ls) > lines {
+		ls = ls[len(ls)-lines:]
+	}
+	return strings.Join(ls, " ⏎ ")
+}
+
+func cmdReplay(args []string) int {
+	if len(args) < 1 {
+		usage()
+	}
+	bz, err := os.ReadFile(args[0])
+	if err != nil {
+		fmt.Fprintln(os.Stderr, err)
+		return 2
+	}
+	fmt.Println(string(bz))
+	return 0
+}
